@@ -83,12 +83,11 @@ Qed.
 Section Program.
   Variable p : list stmt.
   Hypothesis W : wf_program p = true.
-  Hypothesis G : fn_guard p = true.
 
   Lemma accepted_table syms : program_symbols p = Ret syms ->
     exists d, syms = (dict_values d ++ verbatim_blocks p)%list /\ DInv d (Gof (amentions p)) /\ dict_keys d = script_names p.
   Proof.
-    intros A. pose proof (program_spec p W G) as S. rewrite A in S. destruct S as (d & E & HD & K).
+    intros A. pose proof (program_spec p W) as S. rewrite A in S. destruct S as (d & E & HD & K).
     exists d. split; [exact E|]. split; [exact HD|]. apply keys_are_script_names; assumption.
   Qed.
 
@@ -235,7 +234,7 @@ Section Program.
     (x = SymbolError /\ exists a b, In a (amentions p) /\ In b (amentions p) /\ aname a = aname b /\ clash (atype a) (atype b)) \/
     (x = ParserError /\ exists a b, In a (amentions p) /\ In b (amentions p) /\ aname a = aname b /\ two_texts a b).
   Proof.
-    intros A. pose proof (program_spec p W G) as S. rewrite A in S. destruct S as [S|[S|S]]; auto.
+    intros A. pose proof (program_spec p W) as S. rewrite A in S. destruct S as [S|[S|S]]; auto.
   Qed.
 
   Theorem conflict_rejected a b : In a (amentions p) -> In b (amentions p) -> aname a = aname b -> clash (atype a) (atype b) ->
@@ -244,6 +243,15 @@ Section Program.
     intros Ia Ib N C. destruct (program_symbols p) as [syms|x] eqn:A.
     - exfalso. destruct (accepted_table syms A) as (d & _ & HD & _). apply (accepted_no_clash p d HD a b Ia Ib N C).
     - exists x. split; [reflexivity|]. destruct (rejection_classes x A) as [(-> & _)|[(-> & _)|(-> & _)]]; auto.
+  Qed.
+
+  (* in particular a name called as a function and also used as a variable, parameter or error — in one equation, in
+     either order, or in different equations (b45daa1) *)
+  Theorem function_clash_rejected a b : In a (amentions p) -> In b (amentions p) -> aname a = aname b ->
+    atype a = TFunction -> atype b <> TFunction ->
+    exists x, program_symbols p = Raise x /\ (x = SymbolError \/ x = ParserError).
+  Proof.
+    intros Ia Ib N Ta Tb. apply (conflict_rejected a b Ia Ib N). unfold clash. rewrite Ta. split; [congruence|reflexivity].
   Qed.
 
   Theorem double_definition_rejected a b : In a (amentions p) -> In b (amentions p) -> aname a = aname b -> two_texts a b ->
@@ -263,9 +271,14 @@ Lemma default_range_ok n lags leads : (0 <= lags)%Z -> (0 <= leads)%Z -> (lags +
 Proof.
   intros H1 H2 H3. unfold default_range.
   destruct (Nat.eqb n 0) eqn:En; [apply Nat.eqb_eq in En; lia|].
-  rewrite (py_pos_nonneg n lags) by lia. rewrite (py_pos_neg n (-1 - leads)) by lia.
-  f_equal. rewrite !Z2Nat.id by lia. replace (-1 - leads + Z.of_nat n + 1 - lags)%Z with (Z.of_nat n - leads - lags)%Z by lia.
-  reflexivity.
+  replace (Z.of_nat n <=? lags)%Z with false by (symmetry; apply Z.leb_gt; lia).
+  replace (Z.of_nat n - 1 - leads <? 0)%Z with false by (symmetry; apply Z.ltb_ge; lia).
+  cbv zeta. f_equal. f_equal. f_equal. unfold clip.
+  replace (Z.of_nat n - leads <? 0)%Z with false by (symmetry; apply Z.ltb_ge; lia).
+  replace (Z.of_nat n <? Z.of_nat n - leads)%Z with false by (symmetry; apply Z.ltb_ge; lia).
+  replace (lags <? 0)%Z with false by (symmetry; apply Z.ltb_ge; lia).
+  replace (Z.of_nat n <? lags)%Z with false by (symmetry; apply Z.ltb_ge; lia).
+  apply Nat.min_id.
 Qed.
 
 Lemma nodup_map_inj {A B} (f : A -> B) l : (forall x y, f x = f y -> x = y) -> NoDup l -> NoDup (map f l).
@@ -306,13 +319,10 @@ Theorem default_range_short n lags leads : (0 <= lags)%Z -> (0 <= leads)%Z -> (Z
   else if (Z.of_nat n <=? lags)%Z || (Z.of_nat n <=? leads)%Z then Raise IndexError else Ret [].
 Proof.
   intros H1 H2 H3. unfold default_range. destruct (Nat.eqb n 0) eqn:En; [reflexivity|]. apply Nat.eqb_neq in En.
-  destruct (Z.of_nat n <=? lags)%Z eqn:E1.
-  - apply Z.leb_le in E1. unfold py_pos. replace ((lags <? - Z.of_nat n) || (Z.of_nat n <=? lags))%Z with true; [reflexivity|].
-    symmetry. apply orb_true_iff. right. apply Z.leb_le. exact E1.
-  - apply Z.leb_gt in E1. rewrite (py_pos_nonneg n lags) by lia. cbn [orb].
-    destruct (Z.of_nat n <=? leads)%Z eqn:E2.
-    + apply Z.leb_le in E2. unfold py_pos. replace ((-1 - leads <? - Z.of_nat n) || (Z.of_nat n <=? -1 - leads))%Z with true; [reflexivity|].
-      symmetry. apply orb_true_iff. left. apply Z.ltb_lt. lia.
-    + apply Z.leb_gt in E2. rewrite (py_pos_neg n (-1 - leads)) by lia. f_equal.
-      replace (Z.to_nat (Z.of_nat (Z.to_nat (-1 - leads + Z.of_nat n)) + 1 - Z.of_nat (Z.to_nat lags))) with 0%nat by lia. reflexivity.
+  destruct (Z.of_nat n <=? lags)%Z eqn:E1; [reflexivity|]. apply Z.leb_gt in E1. cbn [orb].
+  destruct (Z.of_nat n <=? leads)%Z eqn:E2.
+  - apply Z.leb_le in E2. replace (Z.of_nat n - 1 - leads <? 0)%Z with true by (symmetry; apply Z.ltb_lt; lia). reflexivity.
+  - apply Z.leb_gt in E2. replace (Z.of_nat n - 1 - leads <? 0)%Z with false by (symmetry; apply Z.ltb_ge; lia).
+    cbv zeta. replace (Z.to_nat (Z.of_nat n - leads - lags)) with 0%nat by lia. reflexivity.
 Qed.
+
